@@ -137,8 +137,9 @@ def rule_shape(ctx) -> RuleResult:
         "(a) copy_to_parent's omit list keeps out every harvested field that holds a child entity (the copy would reference the "
         "source's child); (b) copy_property_groups remaps the members in the source group's own order; (c) the recursive "
         "child.copy(...) calls of the copy methods do not forward the caller's **kwargs (overrides meant for the copied "
-        "entity would leak into its whole subtree)",
-        floor=8,
+        "entity would leak into its whole subtree); (d) mutable helper objects held by the entity type (colour map, value map) "
+        "are re-created, not shared, when copy_to_parent builds the type of the copy",
+        floor=10,
     )
     p = ctx.p
     ent = p.cls("Entity")
@@ -206,6 +207,58 @@ def rule_shape(ctx) -> RuleResult:
                         res.find(fn.cls.name, "copy", f"{var}.{c.func.attr}(...) receives the caller's **{kw}", f"{fn.module.relpath}:{c.lineno}",
                                  "attribute overrides given for the copied entity (name=..., public=...) are applied to every descendant as well: the "
                                  "subtree is not reproduced")
+    # (d) mutable helper objects of the entity TYPE (colour map, value map) are re-created for the copy's type
+    ety = p.cls("EntityType")
+    ctp = p.func("Workspace.copy_to_parent")
+    tk = None
+    type_omit = set()
+    for a in ast.walk(ctp.node):
+        if isinstance(a, ast.Assign) and isinstance(a.value, ast.Call) and getattr(a.value.func, "id", None) == "get_attributes" and a.value.args \
+                and unparse(a.value.args[0]).endswith(".entity_type") and isinstance(a.targets[0], ast.Name):
+            tk = a.targets[0].id
+            for k in a.value.keywords:
+                if k.arg == "omit_list":
+                    type_omit |= {c.value for c in ast.walk(k.value) if isinstance(c, ast.Constant) and isinstance(c.value, str)}
+    if tk is None:
+        raise AnalysisError("Workspace.copy_to_parent: harvest of entity.entity_type not found")
+    recreated = {a.targets[0].slice.value for a in ast.walk(ctp.node) if isinstance(a, ast.Assign) and isinstance(a.targets[0], ast.Subscript)
+                 and unparse(a.targets[0].value) == tk and isinstance(a.targets[0].slice, ast.Constant)
+                 and not (isinstance(a.value, ast.Name) or unparse(a.value).startswith(f"{tk}"))}
+    type_fam = {c.name for c in p.subclasses(ety)}
+
+    def mutable_helper(name):
+        try:
+            H = p.cls(name)
+        except AnalysisError:
+            return False
+        if H.name in fam or H.name in type_fam or H.synthetic:
+            return False
+        return any(pr.setter is not None for pr in H.props.values()) or "__setitem__" in H.methods
+
+    seen_t = set()
+    for T in p.subclasses(ety):
+        for c in T.mro:
+            if isinstance(c, str) or c.name in seen_t:
+                continue
+            seen_t.add(c.name)
+            fns = list(c.methods.values()) + [f for pr in c.props.values() for f in (pr.getter, pr.setter) if f is not None and f.cls is c]
+            for fn in fns:
+                for a in ast.walk(fn.node):
+                    if isinstance(a, ast.AnnAssign) and isinstance(a.target, ast.Attribute) and unparse(a.target.value) == "self":
+                        names = {n.id for n in ast.walk(a.annotation) if isinstance(n, ast.Name)}
+                        helpers = sorted(n for n in names if mutable_helper(n))
+                        if not helpers:
+                            continue
+                        fld = a.target.attr
+                        if (c.name, fld) in seen_t:
+                            continue
+                        seen_t.add((c.name, fld))
+                        ok = fld in type_omit or fld.lstrip("_") in recreated
+                        res.inst(f"{c.name}.{fld}: holds a mutable {helpers[0]}; re-created for the copy's type: {ok}", nontrivial=True, ok=ok)
+                        if not ok:
+                            res.find(c.name, fld.lstrip("_"), f"type field {fld} ({helpers[0]}) is handed to the copy's type as the same object", f"{ctp.module.relpath}:{ctp.node.lineno}",
+                                     f"a type created for the copy (other workspace) shares the source type's {helpers[0]}: editing the copy's {fld.lstrip('_')} "
+                                     "changes the source's, and helpers that point back to their type are re-pointed to the copy's type")
     return res
 
 
